@@ -173,6 +173,13 @@ ValidMonitor(e) ==
     /\ e.remove = "ok" => (InAcceptWindow(e.t) /\ e.removed # e.by_remove)
     /\ e.cancel = "ok" => InAcceptWindow(e.t)
     /\ e.accept = "ok" => InAcceptWindow(e.t)
+    \* "acceptm": the accept check repeated on every node while the local clock stands at t + off hours
+    \* (kernel clock mock), finalized false / true: the answer depends on the snapshot timestamp only
+    /\ LET M == Get(e, "acceptm", <<>>) IN
+         \A i \in 1..Len(M) :
+           /\ \A r \in 1..Len(M[i].res) : M[i].res[r] = "ok" => InAcceptWindow(e.t)
+           /\ \A j \in 1..Len(M) : M[j].fin = M[i].fin =>
+                 \A r \in 1..Len(M[i].res), q \in 1..Len(M[j].res) : M[i].res[r] = M[j].res[q]
 
 ValidFull(e) ==
     LET def == ElectDefined(H, e.t)  pp == PledgePeriodValid(H, e.t)  pn == PledgingAt(H, e.t) IN
@@ -185,6 +192,8 @@ ValidFull(e) ==
     /\ e.pledging = pn
     /\ e.cancel = (IF pn = NoNode THEN "na" ELSE IF pp THEN "ok" ELSE "err")
     /\ e.accept = (IF pn = NoNode THEN "na" ELSE IF pp THEN "ok" ELSE "err")
+    /\ LET M == Get(e, "acceptm", <<>>) IN
+         \A i \in 1..Len(M) : \A r \in 1..Len(M[i].res) : M[i].res[r] = (IF pp THEN "ok" ELSE "err")
 
 ValidEv ==
     /\ IsEvent("Valid")
